@@ -5,12 +5,15 @@ its real priority queue / the datagrams its real send loop transmits are checked
 """
 from __future__ import annotations
 
-import itertools
+import collections
+import os
 import threading
 
 from lxml import etree
 
 from .. import core
+from .. import c15_sim
+from ..c15_sim import MC, ID_WINDOW, Sim, SimClock, SimRandom, id_known, mk_node
 from ..wsdharness import EnumRandom, VClock, mk_networking_thread
 
 MODULE = 'vf.props.c15'
@@ -229,7 +232,7 @@ def w_loopback(ctx: core.Ctx, arg):
         def watched_put(item, *a, _real=real_put, **k):
             mid = item.msg.created_message.p_msg.header_info_block.MessageID
             ctx.count('loopback.enqueue_hook')
-            if item.repeat == 1 and mid not in thread._known_message_ids:
+            if item.repeat == 1 and not id_known(thread, mid):
                 enqueued_unknown.append(mid)
             return _real(item, *a, **k)
         thread._send_queue.put = watched_put
@@ -277,6 +280,20 @@ def w_loopback(ctx: core.Ctx, arg):
                 wsd._send_probe([nsh.DPWS.tag('Device')], scopes)
             else:
                 wsd._send_resolve(epr)
+        # the application keeps using the node between the enqueue and the loop-back (own rng: the cases above stay what they were)
+        arng = ctx.rng('loopapi', arg['i'], case)
+        for api in arng.sample(['clear_remote', 'callbacks', 'found', 'clear_local', None, None], arng.randrange(0, 3)):
+            if api == 'clear_remote':
+                wsd.clear_remote_services()
+            elif api == 'callbacks':
+                wsd.set_remote_service_hello_callback(None)
+                wsd.set_remote_service_bye_callback(None)
+            elif api == 'found':
+                wsd.get_found_remote_services()
+            elif api == 'clear_local':
+                wsd.clear_local_services()
+            if api:
+                ctx.count('loopback.api_between_enqueue_and_loopback')
         # transient send errors: some transmissions fail (ENETUNREACH), the repetitions that do leave the node are looped back
         sock0 = thread.multi_out_uni_in_out
         fail_every = rng.choice([0, 0, 2, 3])
@@ -357,10 +374,324 @@ def w_loopback(ctx: core.Ctx, arg):
             ctx.sample({'kind': 'loop-back', 'own_kinds': own_kinds, 'own_datagrams': len(own), 'foreign': nforeign, 'handled': len(handled)})
 
 
+# ---------------------------------------------------------------------------------------------------------------------------------------
+# round 4: the envelope in every STATE of the node, and the whole node as a discrete-event run (vf/c15_sim.py)
+# ---------------------------------------------------------------------------------------------------------------------------------------
+def _params_for(nt, addr):
+    """the parameter set configured for the kind of destination, read from the module at the time of the judgement."""
+    if addr == MC:
+        return 'MULTICAST_REPEAT_PARAMS', nt.MULTICAST_REPEAT_PARAMS
+    return 'UNICAST_REPEAT_PARAMS', nt.UNICAST_REPEAT_PARAMS
+
+
+def _rand_params(nt, rng):
+    """a configured parameter set other than the two defaults (min < max <= upper, as in the defaults)."""
+    mn = rng.choice([1, 10, 50, 200])
+    mx = mn + rng.choice([1, 2, 50, 200, 1000])
+    return nt._UdpRepeatParams(rng.choice([0, 1, 50, 500, 1000, 3000]), rng.choice([0, 1, 2, 3, 4, 6]), mn, mx,
+                               rng.choice([mx, 2 * mx, mx + 500, 4000]))
+
+
+def _judge_wire(ctx, nt, params, pname, t_call, entries, txs, detail, count_key='sendloop.count'):
+    """txs: times of all transmission attempts of ONE message; entries: what the put-hook saw; t_call: time of the call that created it."""
+    raster = nt.SEND_LOOP_BUSY_SLEEP + nt.SEND_LOOP_IDLE_SLEEP
+    want = 1 + params.repeat
+    if len(txs) != want:
+        ctx.witness(count_key, f'message transmitted {len(txs)} times instead of 1 + repeat = {want}',
+                    dict(detail, sent_offsets=[round(t - t_call, 4) for t in txs], params=repr(params)))
+        return
+    sched = sorted(t for t, _ in entries)
+    if len(sched) == want:
+        for t, s in zip(txs, sched):
+            if not (s - EPS <= t <= max(s, t_call) + raster + EPS):
+                ctx.witness('sendloop.time', 'datagram transmitted before its scheduled time or later than one loop raster after it',
+                            dict(detail, sent_at=t - t_call, scheduled=s - t_call))
+                break
+    ctx.count('wire.messages')
+    first = txs[0] - t_call
+    if not (-EPS <= first <= params.max_initial_delay_ms / 1000.0 + raster + EPS):
+        ctx.witness(f'wire.initial_delay.{pname}', 'first datagram left the node later than the configured initial delay (+ one loop raster) '
+                    'after the call that created the message', dict(detail, delay_s=first, max_ms=params.max_initial_delay_ms))
+    gaps = [txs[i + 1] - txs[i] for i in range(len(txs) - 1)]
+    if gaps:
+        if not (params.min_delay_ms / 1000.0 - raster - EPS <= gaps[0] <= params.max_delay_ms / 1000.0 + raster + EPS):
+            ctx.witness(f'wire.first_gap.{pname}', 'first gap on the wire outside the configured window (+- one loop raster)',
+                        dict(detail, gap_s=gaps[0], window_ms=[params.min_delay_ms, params.max_delay_ms]))
+        upper = params.upper_delay_ms / 1000.0
+        for i in range(len(gaps) - 1):
+            if abs(gaps[i + 1] - min(2 * gaps[i], upper)) > 3 * raster + EPS:
+                ctx.witness(f'wire.gap.{pname}', 'gap on the wire is not min(2 * previous, upper delay) within the loop raster',
+                            dict(detail, gaps_s=gaps, upper_delay_ms=params.upper_delay_ms))
+                break
+
+
+STATE_BACKLOGS = [0, 1, 5, 20, 25, 26, 27, 51, 52, 100, 128, 256, 600]
+
+
+def w_state(ctx: core.Ctx, arg):
+    """the schedule of a new message must not depend on the state of the node: backlog of the send queue (entries waiting / already due,
+    up to the bound of the queue), memory of known ids, clock epoch, destination, parameter set (the two defaults and other configured
+    sets).  Draws: lower bound / upper bound / middle of WHATEVER domain the code asks its random source for in that state."""
+    from sdc11073.wsdiscovery import networkingthread as nt
+    rng = ctx.rng('state', arg['i'])
+    plan = []
+    for bi, backlog in enumerate(STATE_BACKLOGS + ([1990] if arg['i'] == 0 else []) + ([1200, 1985] if not ctx.quick else [])):
+        for age in ('future', 'due'):
+            if (bi + (age == 'due')) % arg['of'] == arg['i'] % arg['of']:
+                plan.append((backlog, age))
+    serial = 0
+    for backlog, age in plan:
+        clock = SimClock(rng.choice([1_790_000_000.0, 1_790_000_000.0, 12.5, 4_100_000_000.0]) + rng.random() * 100)
+        rnd = SimRandom(rng, 'rand')
+        wsd, thread = mk_node(clock, rnd)
+        idmem = rng.random() < 0.3
+        if idmem:  # the node has a history: its memory of known ids is full (real receive path)
+            foreign = c15_sim.Foreign()
+            for j in range(ID_WINDOW + 5):
+                thread.multi_in.inbox.append((foreign.make('hello', j)[0], ('10.0.0.7', 3702)))
+            while thread.multi_in.inbox:
+                thread._recv_messages()
+            thread._quit_recv_event.clear()
+            thread._run_q_read()
+            thread._quit_recv_event.clear()
+            ctx.count('state.idmem_full_nodes')
+        filler = _mk_msg(999_999)
+        for _ in range(backlog):
+            thread.add_outbound_message(filler, MC, 3702, nt.MULTICAST_REPEAT_PARAMS)
+        if age == 'due':
+            clock.now += 5.0
+        probes = []
+        psets = [('UNICAST_REPEAT_PARAMS', nt.UNICAST_REPEAT_PARAMS), ('MULTICAST_REPEAT_PARAMS', nt.MULTICAST_REPEAT_PARAMS)]
+        psets += [('custom', _rand_params(nt, rng)) for _ in range(3)]
+        for pname, params in psets:
+            for f0 in (0.0, 1.0, 0.5):
+                for f1 in (0.0, 1.0, 0.5):
+                    rnd.force = (f0, f1)
+                    serial += 1
+                    cm = _mk_msg(serial)
+                    addr = (MC, 3702) if rng.random() < 0.5 else (f'10.0.0.{serial % 250}', 3702 + serial % 7)
+                    now = clock.now
+                    qsize = thread._send_queue.qsize()
+                    rnd.calls.clear()
+                    thread.add_outbound_message(cm, addr[0], addr[1], params)
+                    entries = sorted((e.send_time, e.repeat) for e in thread._send_queue.queue if e.msg.created_message is cm)
+                    ctx.count('state.cases')
+                    if qsize >= 128:
+                        ctx.count('state.cases_backlog_ge128')
+                    if pname == 'custom':
+                        ctx.count('state.cases_custom_params')
+                    draws = {'initial': f'{f0} of {rnd.calls[0][1:] if rnd.calls else None}', 'first_gap': f'{f1} of {rnd.calls[1][1:] if len(rnd.calls) > 1 else None}',
+                             'waiting_entries': qsize, 'backlog_age': age, 'id_memory_full': idmem, 'params': repr(params)}
+                    _check_schedule(ctx, params, pname, now, entries, draws)
+                    ctx.case(('state', pname if pname != 'custom' else repr(params), backlog, age, f0, f1))
+                    probes.append((cm.p_msg.header_info_block.MessageID, pname, params, now, entries, addr, draws))
+                    if not id_known(thread, cm.p_msg.header_info_block.MessageID):
+                        ctx.witness('loopback.own_message_handled.enqueue_window', 'own id not in the id memory after add_outbound_message',
+                                    {'waiting_entries': qsize})
+        rnd.force = None
+        if backlog <= (600 if ctx.quick else 2000):
+            # the real loop gets everything out: exactly 1 + repeat datagrams per message, each at its time
+            thread._quit_send_event.set()
+            try:
+                thread._run_send()
+            except c15_sim.SimAbort:
+                ctx.witness('sendloop.hang', 'send loop did not drain the queue within the logical step bound', {'waiting_entries': backlog * 5})
+                continue
+            ctx.count('state.drains')
+            by_mid = collections.defaultdict(list)
+            for t, data, dest, ok in thread.multi_out_uni_in_out.sent:
+                if len(data) < 20000:
+                    by_mid[c15_sim.mid_of(data)].append((t, dest))
+            for mid, pname, params, now, entries, addr, draws in probes:
+                got = by_mid.get(mid, [])
+                if any(dest != addr for _, dest in got):
+                    ctx.witness('sendloop.addr', 'datagram sent to the wrong address', {'want': addr, 'got': [d for _, d in got][:3]})
+                _judge_wire(ctx, nt, params, pname, now, entries, [t for t, _ in got], draws)
+        if serial and serial % 45 == 0 and len(ctx.samples) < 2:
+            ctx.sample({'kind': 'state', 'waiting_entries_before': backlog * 5, 'age': age, 'id_memory_full': idmem, 'cases': 45})
+
+
+def _directed_scripts(thorough):
+    """(name, draw mode, script, options).  Offsets in seconds after the start of the send loop."""
+    out = []
+    for mode in ('hi', 'lo', 'mid', 'rand'):
+        out.append(('burst60', mode, [(0, ('burst', 60))], {}))
+    out.append(('burst_spread', 'mid', [(0, ('burst', 30)), (0.2, ('mode', 'hi')), (0.2, ('burst', 30)), (0.5, ('burst', 12))], {}))
+    out.append(('burst130', 'hi', [(0, ('burst', 130))], {}))
+    if thorough:
+        out.append(('burst400', 'hi', [(0, ('burst', 400))], {}))
+        out.append(('burst1900', 'mixed', [(0, ('burst', 1900)), (0.1, ('mode', 'hi')), (0.1, ('burst', 20))], {'max_ticks': 20000}))
+    # the application uses the API while transmissions of an own multicast message are pending
+    for api in (('clear_remote',), ('clear_local',), ('callbacks',), ('found',), ('republish', 0), ('clear_service', 0), ('probe',), ('resolve', 3)):
+        for mode in ('lo', 'hi', 'mid'):
+            out.append((f'api.{api[0]}', mode, [(0, ('publish', 0)), (0, ('publish', 1)), (0, ('probe',))] + [(t, api) for t in (0.05, 0.3, 0.8, 1.6)] + [(2.0, ('found',))],
+                        {'loop_delay': 0.0 if mode != 'mid' else 0.12}))
+    # foreign traffic inside the retransmission window, fewer ids than the id memory holds
+    for n in (50, 150, 190, ID_WINDOW - 1):
+        out.append((f'flood{n}', 'lo', [(0, ('publish', 0)), (0.2, ('flood', n)), (1.0, ('found',))], {'flood_lt_window': n}))
+    out.append(('flood_matches150', 'mid', [(0, ('publish', 0)), (0, ('probe',)), (0.4, ('flood', 150, 'probematch')), (1.5, ('found',))], {'flood_lt_window': 150}))
+    # ... and at least as many: the id-window overflow class
+    for n in (ID_WINDOW, ID_WINDOW + 60):
+        out.append((f'overflow{n}', 'lo', [(0, ('publish', 0)), (0.2, ('flood', n)), (1.0, ('found',))], {'overflow': True}))
+    out.append(('overflow_matches', 'mid', [(0, ('publish', 0)), (0, ('probe',)), (0.4, ('flood', ID_WINDOW + 30, 'probematch')), (1.5, ('found',))], {'overflow': True}))
+    # messages the node creates as a reaction (real receive handlers), foreign retransmissions, incomplete matches
+    resp = [(0, ('publish', 0)), (0, ('publish', 1)), (0, ('publish', 2)), (0.1, ('recv', 'probe', 1, 3, 0.1)), (0.2, ('recv', 'resolve_own', 2, 2, 0.05)),
+            (0.3, ('recv', 'hello_noxaddr', 3, 3, 0.2)), (0.4, ('recv', 'probematch_bare', 4, 1, 0)), (0.5, ('recv', 'bye', 5, 2, 0.1)),
+            (0.6, ('recv', 'resolvematch', 6, 1, 0)), (0.7, ('recv', 'probe_nomatch', 7, 1, 0)), (0.8, ('recv', 'resolve_other', 8, 1, 0)),
+            (0.9, ('recv', 'probematch', 9, 2, 0.3)), (0.95, ('recv', 'hello', 10, 5, 0.25)), (1.0, ('found',))]
+    for mode in ('lo', 'hi', 'rand', 'mixed'):
+        out.append(('responses', mode, list(resp), {}))
+    out.append(('responses_late_loopback', 'rand', list(resp), {'loop_delay': 0.7}))
+    out.append(('responses_epoch', 'mixed', list(resp), {'start': 17.25}))
+    out.append(('responses_epoch_far', 'mixed', list(resp), {'start': 4_100_000_000.0}))
+    # stop() while transmissions are pending: Hellos keep their times, Byes are created by stop() itself
+    for mode in ('hi', 'lo', 'rand'):
+        for how in ('graceful', 'abrupt'):
+            out.append((f'stop.{how}', mode, [(0, ('publish', 0)), (0, ('publish', 1)), (0.05, ('probe',)), (0.1, ('recv', 'probe', 1, 1, 0)), (0.3, ('stop', how))], {}))
+    # transient send errors
+    for mode in ('lo', 'rand'):
+        for every in (2, 3):
+            out.append(('senderr', mode, [(0, ('senderr', every)), (0, ('publish', 0)), (0.1, ('probe',)), (0.2, ('recv', 'probe', 1, 1, 0)),
+                                          (1.0, ('senderr', 0)), (1.0, ('publish', 1)), (1.2, ('clear_remote',))], {}))
+    # other configured parameter sets (the module constants are the configuration)
+    for k in range(6 if not thorough else 30):
+        out.append(('custom_params', ('lo', 'hi', 'rand')[k % 3], [(0, ('publish', 0)), (0.05, ('probe',)), (0.1, ('recv', 'probe', 1, 2, 0.1)),
+                                                                 (0.15, ('recv', 'resolve_own', 2, 1, 0)), (0.3, ('clear_remote',)), (0.6, ('clear_service', 0))], {'custom': k}))
+    return out
+
+
+def _random_script(rng):
+    script, t, published = [], 0.0, 0
+    for _ in range(rng.randrange(4, 24)):
+        t += rng.choice([0, 0, 0.01, 0.05, 0.13, 0.3, 0.6])
+        r = rng.random()
+        if r < 0.22 or not published:
+            script.append((t, ('publish', rng.randrange(0, 4))))
+            published += 1
+        elif r < 0.30:
+            script.append((t, ('clear_service', rng.randrange(0, 4))))
+        elif r < 0.40:
+            script.append((t, rng.choice([('probe',), ('resolve', rng.randrange(0, 9))])))
+        elif r < 0.58:
+            script.append((t, rng.choice([('clear_remote',), ('clear_remote',), ('clear_local',), ('callbacks',), ('found',)])))
+        elif r < 0.86:
+            kind = rng.choice(['probe', 'probe', 'resolve_own', 'hello', 'hello_noxaddr', 'bye', 'probematch', 'probematch_bare', 'resolvematch',
+                               'probe_nomatch', 'resolve_other'])
+            script.append((t, ('recv', kind, rng.randrange(0, 9), rng.randrange(1, 4), rng.choice([0, 0.05, 0.3]))))
+        elif r < 0.91:
+            script.append((t, ('flood', rng.choice([5, 30, 80]))))
+        elif r < 0.95:
+            script.append((t, ('burst', rng.choice([3, 30, 45]))))
+        elif r < 0.98:
+            script.append((t, ('mode', rng.choice(['lo', 'hi', 'mid', 'rand', 'mixed']))))
+        else:
+            script.append((t, ('senderr', rng.choice([0, 2, 3]))))
+    if rng.random() < 0.3:
+        script.append((t + rng.choice([0.0, 0.2, 1.0]), ('stop', rng.choice(['graceful', 'abrupt']))))
+    return script
+
+
+def _judge_sim(ctx, nt, sim, name, opts):
+    detail0 = {'scenario': name, 'draw_mode': sim.rnd.mode}
+    ctx.count('sim.runs')
+    if sim.aborted:
+        ctx.witness('sendloop.hang', 'send loop still running after more logical steps than any legal schedule needs', detail0)
+        return
+    by_mid = collections.defaultdict(list)
+    for t, mid, dest, ok in sim.sent:
+        by_mid[mid].append((t, dest))
+    custom = 'custom' in opts
+    n_handler = 0
+    for rec in sim.own.values():
+        if rec['dropped']:
+            ctx.count('sim.dropped_after_stop')
+            continue
+        pname, params = _params_for(nt, rec['addr'])
+        if custom:
+            pname = 'custom'
+        ctx.count('sim.own_messages')
+        ctx.count(f'sim.msg.{rec["action"]}.{"reaction" if rec["origin"] == "handler" else "api"}')
+        n_handler += rec['origin'] == 'handler'
+        detail = dict(detail0, action=rec['action'], created_by=rec['origin'], waiting_entries=rec['qsize'], draw_mode_at_call=rec['mode'])
+        _check_schedule(ctx, params, pname, rec['t_call'], sorted(rec['entries']), detail)
+        got = by_mid.get(rec['mid'], [])
+        if any(dest != (rec['addr'], rec['port']) for _, dest in got):
+            ctx.witness('sendloop.addr', 'datagram sent to the wrong address', dict(detail, want=[rec['addr'], rec['port']]))
+        count_key = f'wsd.count.{rec["action"]}' if rec['params'].repeat != params.repeat else 'sendloop.count'
+        _judge_wire(ctx, nt, params, pname, rec['t_call'], rec['entries'], sorted(t for t, _ in got), detail, count_key)
+    ctx.count('sim.reaction_messages', n_handler)
+    foreign_sent = set(by_mid) - set(sim.own)
+    if foreign_sent:
+        ctx.witness('sendloop.foreign', 'node transmitted something that was never handed to add_outbound_message', dict(detail0, ids=sorted(map(str, foreign_sent))[:3]))
+    if sim.enqueue_unknown:
+        ctx.witness('loopback.own_message_handled.enqueue_window', 'a message was put on the send queue before its id was registered as known',
+                    dict(detail0, ids=sim.enqueue_unknown[:3]))
+    # ---- own messages looped back ----
+    for key in ('own_loopbacks', 'api_in_window', 'enqueue_with_backlog_ge128', 'pending_at_stop', 'foreign_datagrams'):
+        ctx.count(f'sim.{key}', sim.stats.get(key, 0))
+    for key, n in sim.stats.items():
+        if key.startswith('api_in_window.'):
+            ctx.count(f'sim.{key}', n)
+    plain = [x for x in sim.own_handled if x[1] < ID_WINDOW]
+    over = [x for x in sim.own_handled if x[1] >= ID_WINDOW]
+    own_effects = sorted({f'{kind}:{epr}' for kind, epr in sim.callbacks if epr in sim.own_eprs} | {f'remote:{e}' for e in sim.remote_seen & sim.own_eprs})
+    if plain:
+        ctx.witness('loopback.own_message_handled.sequence', 'a datagram the node sent itself was handled when multicast looped it back '
+                    f'(fewer than {ID_WINDOW} other ids registered in between)',
+                    dict(detail0, handled=[{'action': a, 'ids_registered_since': n} for _, n, a in plain[:4]], effects=own_effects[:4]))
+    elif own_effects and not over:
+        ctx.witness('loopback.own_message_handled.sequence', 'own endpoint shows up among the REMOTE services / in the remote-service callbacks of the node',
+                    dict(detail0, effects=own_effects[:4]))
+    if over:
+        ctx.count('loopback.id_window_overflow.own_handled', len(over))
+        what = (f'own message handled as a foreign one: {ID_WINDOW} or more other message ids were registered between its registration and the '
+                'loop-back of one of its transmissions (one bounded id memory for own and received ids)')
+        if c15_sim.IDWINDOW_DEFAULT or os.environ.get('VERIF_C15_IDWINDOW') == '1':
+            ctx.witness('loopback.own_message_handled.id_window_overflow', what,
+                        dict(detail0, handled=[{'action': a, 'ids_registered_since': n} for _, n, a in over[:4]], effects=own_effects[:4]))
+        else:
+            ctx.extra['id_window_overflow'] = 'observed, reported only with VERIF_C15_IDWINDOW=1: ' + what
+    if opts.get('overflow'):
+        ctx.count('loopback.id_window_overflow.runs')
+    if opts.get('flood_lt_window') and not sim.own_handled and sim.stats.get('own_loopbacks', 0) >= 3:
+        ctx.count('sim.flood_lt_window_ignored')
+    ctx.case(('sim', name.split('#')[0], sim.rnd.mode, len(sim.own), n_handler, bool(sim.stopped == 'graceful'), custom))
+
+
+def w_sim(ctx: core.Ctx, arg):
+    """one real WSDiscovery node as a discrete-event run: directed scripts (slice arg['i'] of arg['of']) + seeded random scripts."""
+    from sdc11073.wsdiscovery import networkingthread as nt
+    rng = ctx.rng('sim', arg['i'])
+    todo = [d for k, d in enumerate(_directed_scripts(not ctx.quick)) if k % arg['of'] == arg['i'] % arg['of']] if arg['i'] < arg['of'] else []
+    for k in range(arg['n_random']):
+        todo.append((f'random#{k}', rng.choice(['lo', 'hi', 'mid', 'rand', 'rand', 'mixed']), None, {'loop_delay': rng.choice([0.0, 0.0, 0.05, 0.4])}))
+    defaults = (nt.UNICAST_REPEAT_PARAMS, nt.MULTICAST_REPEAT_PARAMS)
+    for name, mode, script, opts in todo:
+        srng = ctx.rng('simcase', arg['i'], name, mode, opts.get('custom', ''))
+        if script is None:
+            script = _random_script(srng)
+        try:
+            if 'custom' in opts:
+                nt.UNICAST_REPEAT_PARAMS, nt.MULTICAST_REPEAT_PARAMS = _rand_params(nt, srng), _rand_params(nt, srng)
+            sim = Sim(srng, mode=mode, start=opts.get('start', 1_790_000_000.0 + srng.random() * 1000), loop_delay=opts.get('loop_delay', 0.0),
+                      max_ticks=opts.get('max_ticks', 6000))
+            sim.run(script)
+            _judge_sim(ctx, nt, sim, name, opts)
+        finally:
+            nt.UNICAST_REPEAT_PARAMS, nt.MULTICAST_REPEAT_PARAMS = defaults
+        if len(ctx.samples) < 2:
+            ctx.sample({'kind': 'node run', 'scenario': name, 'draw_mode': mode, 'own_messages': len(sim.own), 'datagrams': len(sim.sent),
+                        'looped_back': sim.stats.get('own_loopbacks', 0), 'foreign_datagrams': sim.stats.get('foreign_datagrams', 0),
+                        'logical_steps': sim.clock.sleeps})
+
+
 def run(ctx: core.Ctx):
     ctx.rule = ('(1) exhaustive: every pair (initial-delay draw, first-gap draw) of the domains the code itself asks its random source for, for '
                 'UNICAST_REPEAT_PARAMS and MULTICAST_REPEAT_PARAMS; distinct = the pair; (2) real send loop on a virtual clock, seeded '
-                'message sets; (3) loop-back of own datagrams through the real q-read loop; non-trivial = at least one entry scheduled')
+                'message sets; (3) loop-back of own datagrams through the real q-read loop; (4) node states: backlog x age x id memory x '
+                'parameter set (defaults + random configured sets) x draws at lo/hi/mid of the domain asked for; (5) one real WSDiscovery node as '
+                'a discrete-event run: directed scripts (bursts, API calls / foreign traffic / stop inside the retransmission window, reactions '
+                'of the receive handlers, send errors, other parameter sets) + seeded random scripts; non-trivial = at least one entry scheduled')
     jobs = []
     for pname in ('UNICAST_REPEAT_PARAMS', 'MULTICAST_REPEAT_PARAMS'):
         for k in range(8):
@@ -369,6 +700,12 @@ def run(ctx: core.Ctx):
         jobs.append(['w_sendloop', {'i': k, 'n': 50 if ctx.quick else 1250}])
     for k in range(4 if ctx.quick else 16):
         jobs.append(['w_loopback', {'i': k, 'n': 12 if ctx.quick else 100}])
+    n_state, n_sim = (2, 4) if ctx.quick else (4, 16)
+    for k in range(n_state):
+        jobs.append(['w_state', {'i': k, 'of': n_state}])
+    for k in range(n_sim):
+        jobs.append(['w_sim', {'i': k, 'of': n_sim, 'n_random': 12 if ctx.quick else 150}])
+    jobs.sort(key=lambda j: {'w_sim': 0, 'w_state': 1}.get(j[0], 2))  # the long ones first
     core.fanout(ctx, MODULE, 'dispatch', jobs)
     ctx.exhaustive = True
     ctx.extra['exhaustive_part'] = 'both random draws of _repeated_enqueue_msg (sub-check 1); send loop and loop-back are sampled'
@@ -385,8 +722,29 @@ def run(ctx: core.Ctx):
     ctx.floor('loopback.foreign_ids', 20)
     ctx.floor('loopback.prefilled_runs', 8)
     ctx.floor('loopback.send_errors_injected', 10)
+    ctx.floor('loopback.api_between_enqueue_and_loopback', 10)
+    ctx.floor('state.cases', 1000)
+    ctx.floor('state.cases_backlog_ge128', 300)
+    ctx.floor('state.cases_custom_params', 300)
+    ctx.floor('state.drains', 20)
+    ctx.floor('wire.messages', 1000)
+    ctx.floor('sim.runs', 80)
+    ctx.floor('sim.own_messages', 600)
+    ctx.floor('sim.own_loopbacks', 2000)
+    ctx.floor('sim.reaction_messages', 100)
+    ctx.floor('sim.api_in_window', 100)
+    ctx.floor('sim.api_in_window.clear_remote', 10)
+    ctx.floor('sim.enqueue_with_backlog_ge128', 200)
+    ctx.floor('sim.pending_at_stop', 30)
+    ctx.floor('sim.flood_lt_window_ignored', 5)
+    ctx.floor('loopback.id_window_overflow.runs', 3)
     ctx.assumptions += ['time and random are looked up as module globals of networkingthread (replaced by a virtual clock / enumerating stub)',
-                        'sockets and selectors are fakes; the kernel UDP path is not exercised']
+                        'sockets and selectors are fakes; the kernel UDP path is not exercised',
+                        'node runs (5) are single-threaded: harness actions happen inside the sleeps of the real send loop, the receive side is '
+                        'run to completion after every delivery; real thread interleavings are only covered by the enqueue-window invariant',
+                        'wire-level bounds allow one loop raster (SEND_LOOP_IDLE_SLEEP + SEND_LOOP_BUSY_SLEEP) per transmission',
+                        'the parameter set owed to a message is the module constant for its kind of destination (multicast group / unicast peer) '
+                        'at the time of the call']
 
 
 def dispatch(ctx: core.Ctx, job):
